@@ -49,6 +49,13 @@ class RuleIndex:
             for r in rs:
                 self.unary_by_result.setdefault(model_of(r.cat), []).append((k, r.op_string, r.op_symbol))
                 self.by_label.setdefault((r.op_string, r.op_symbol), [])
+        # category pairs the grammar combines into two or more different result categories
+        by_pair = {}
+        for mr, lst in self.by_result.items():
+            for (mx, my, lab, sym, hl) in lst:
+                by_pair.setdefault((mx, my), {}).setdefault(mr, (lab, sym, hl))
+        self.ambiguous_pairs = sorted(((k, sorted(v.items(), key=repr)) for k, v in by_pair.items() if len(v) >= 2),
+                                      key=repr)
         self.results = sorted(self.by_result, key=repr)
         self.targets = list(dict.fromkeys(read(s) for s in inventory.targets(which)))
         tset = set(self.targets)
@@ -250,3 +257,18 @@ def t_derivation_with_label(t, idx, label, max_leaves=5):
     left = t_derivation(t, idx, max_leaves=max(1, max_leaves // 2), root=x)
     right = t_derivation(t, idx, max_leaves=max(1, max_leaves // 2), root=y)
     return ('B', res, left, right, lab, sym, hl)
+
+
+def t_ambiguous_pair(t, idx):
+    """two one-step derivations over the same two leaf categories with different result categories
+    (e.g. ', NP' -> NP\\NP by conjunction and -> NP by punctuation absorption); None if the grammar has none"""
+    if not idx.ambiguous_pairs:
+        return None
+    (x, y), results = idx.ambiguous_pairs[t.below(len(idx.ambiguous_pairs))]
+    i = t.below(len(results))
+    j = (i + 1 + t.below(len(results) - 1)) % len(results)
+    out = []
+    for k in (i, j):
+        r, (lab, sym, hl) = results[k]
+        out.append(('B', r, ('L', x), ('L', y), lab, sym, hl))
+    return out
